@@ -234,7 +234,13 @@ func checkStateGraph(x *Ctx, role, name string) {
 			}
 		case "setup", "shipid":
 			if terminalSeq != 0 && e.Seq > terminalSeq {
-				x.Violate("callback-after-terminal", e.Kind, fmt.Sprintf("%s callback after the terminal outcome %d", e.Kind, terminalState))
+				discr := e.Kind
+				if terminalState == -1 && closedTask != e.Task && closedDuringRx && rxOpenSeq == closedRxSeq {
+					// same history as the known finding: the close was requested by another
+					// goroutine while this very handler invocation was in flight
+					discr += ":closed-by-other-goroutine-during-handler"
+				}
+				x.Violate("callback-after-terminal", discr, fmt.Sprintf("%s callback after the terminal outcome %d", e.Kind, terminalState))
 				return
 			}
 		}
